@@ -554,7 +554,7 @@ fn main_lex(args: &[String]) {
             emit(c);
         }
     } else if let Some(path) = mode.strip_prefix("file:") {
-        for line in std::fs::read_to_string(path).unwrap().lines() {
+        for line in String::from_utf8_lossy(&std::fs::read(path).unwrap()).lines() {
             let line = line.trim();
             if line.starts_with('#') {
                 continue;
@@ -658,7 +658,7 @@ fn main_accept(args: &[String]) {
             emit(format!("G {} {}", style, hex(text.as_bytes())), text.into_bytes());
         }
     } else if let Some(path) = mode.strip_prefix("file:") {
-        for line in std::fs::read_to_string(path).unwrap().lines() {
+        for line in String::from_utf8_lossy(&std::fs::read(path).unwrap()).lines() {
             let line = line.trim();
             if let Some(rest) = line.strip_prefix("G ") {
                 let mut it = rest.splitn(2, ' ');
